@@ -52,6 +52,8 @@ var ErrReadQuorum = errors.New("read quorum cannot be reached")
 type version struct {
 	host  *discovery.Member
 	entry storage.Entry
+	// previousOwner marks a version read from the primary fragment of a previous partition owner.
+	previousOwner bool
 }
 
 // getOnFragment retrieves an entry from the associated fragment based on the provided environment details.
@@ -97,7 +99,7 @@ func (dm *DMap) lookupOnPreviousOwner(owner *discovery.Member, key string) (*ver
 		return nil, protocol.ConvertError(err)
 	}
 
-	v := &version{host: owner}
+	v := &version{host: owner, previousOwner: true}
 	e := dm.engine.NewEntry()
 	e.Decode(value)
 	v.entry = e
@@ -255,6 +257,13 @@ func (dm *DMap) lookupOnReplicas(hkey uint64, key string) []*version {
 func (dm *DMap) readRepair(winner *version, versions []*version) {
 	for _, value := range versions {
 		if value.entry != nil && winner.entry.Timestamp() == value.entry.Timestamp() {
+			continue
+		}
+		if value.previousOwner {
+			// DM.PUTENTRY stores the entry on the backup fragment of its receiver. A previous
+			// owner keeps its entries on the primary fragment until the balancer moves them,
+			// which merges them with the newer ones: a copy on its backup fragment would
+			// only be left behind, out of the reach of Delete.
 			continue
 		}
 
